@@ -17,6 +17,7 @@ from multiprocessing import Pool
 import pexpect
 from .. import tlc, evidence, common
 from ..world import PtyWorld, FdWorld, SockWorld, PopenWorld, WouldBlock
+from ..budget import Hung, wall_budget, ReadBound, pmap, CASE_BUDGET
 from . import transport as TR
 
 NONE, DEFAULT = -1000, -1
@@ -24,6 +25,8 @@ INST_T = 2
 ENTRIES = ['expect', 'expect_exact', 'expect_list', 'expect_loop', 'read_nonblocking', 'waitnoecho']
 TRANSPORTS = ['pty', 'pipe', 'socket', 'popen']
 FD_KINDS = ('pipe', 'pty', 'sockfd', 'fifo', 'tcp')
+MAX_READS = 5000       # read_nonblocking calls per call of an entry point (the longest legitimate wait: 14 ticks of 20 polls)
+WALL_BUDGET = 15       # seconds of wall-clock time per call (they take milliseconds)
 
 
 def make_world(transport, workdir, k=0):
@@ -44,6 +47,16 @@ def make_world(transport, workdir, k=0):
 
 
 def execute(args):
+    try:
+        with wall_budget(CASE_BUDGET):
+            return execute_(args)
+    except Hung:
+        workdir, tid, transport, entry, targ, start, events, k = args
+        return {'id': tid, 'entry': entry, 'targ': targ, 'start': start, 'events': [list(e) for e in events], 'transport': transport, 'k': k,
+                'error': 'the case did not finish within %d s (world construction / peer synchronisation)' % CASE_BUDGET}
+
+
+def execute_(args):
     """run one timed schedule on a real transport; returns the trace record"""
     workdir, tid, transport, entry, targ, start, events, k = args
     tick = 0.1 if entry == 'waitnoecho' else 1.0
@@ -82,44 +95,51 @@ def execute(args):
         arg = {NONE: None, DEFAULT: -1}.get(targ, targ * tick)
         kw = {} if targ == DEFAULT else {'timeout': arg}
         t0 = w.clock.now
+        # a call that does not come back is the violation, not a reason to hang: the number of reads of one call is bounded
+        # (a loop that spins in virtual time), and so is its wall-clock time (a loop without reads, a blocking system call)
+        ReadBound(child, MAX_READS)
         w.active = True
         out, consumed = None, 0
         try:
-            if entry == 'expect':
-                child.expect(b'm', **kw)
-            elif entry == 'expect_exact':
-                child.expect_exact(b'm', **kw)
-            elif entry == 'expect_list':
-                child.expect_list([re.compile(b'm')], **kw)
-            elif entry == 'expect_loop':
-                child.expect_loop(pexpect.expect.searcher_re([re.compile(b'm')]), **kw)
-            elif entry == 'read_nonblocking':
-                if transport == 'popen':
-                    d = child.read_nonblocking(10, -1 if targ == DEFAULT else arg)
-                else:
-                    d = child.read_nonblocking(10, **kw)
-                consumed = len(d)
-                out = 'match' if d else 'TIMEOUT'        # PopenSpawn reports "nothing yet" as an empty read
-            elif entry == 'waitnoecho':
-                out = str(child.waitnoecho(**kw))
-            if out is None:
-                out = 'match'
+            with wall_budget(WALL_BUDGET):
+                if entry == 'expect':
+                    child.expect(b'm', **kw)
+                elif entry == 'expect_exact':
+                    child.expect_exact(b'm', **kw)
+                elif entry == 'expect_list':
+                    child.expect_list([re.compile(b'm')], **kw)
+                elif entry == 'expect_loop':
+                    child.expect_loop(pexpect.expect.searcher_re([re.compile(b'm')]), **kw)
+                elif entry == 'read_nonblocking':
+                    if transport == 'popen':
+                        d = child.read_nonblocking(10, -1 if targ == DEFAULT else arg)
+                    else:
+                        d = child.read_nonblocking(10, **kw)
+                    consumed = len(d)
+                    out = 'match' if d else 'TIMEOUT'        # PopenSpawn reports "nothing yet" as an empty read
+                elif entry == 'waitnoecho':
+                    out = str(child.waitnoecho(**kw))
+                if out is None:
+                    out = 'match'
         except pexpect.TIMEOUT:
             out = 'TIMEOUT'
         except pexpect.EOF:
             out = 'EOF'
         except WouldBlock:
             out = 'BLOCK'
+        except Hung as e:
+            out = 'HUNG'
+            rec['hung'] = str(e)
         except Exception as e:
             out = 'ERR:' + type(e).__name__
         finally:
             w.active = False
-        if entry not in ('read_nonblocking', 'waitnoecho') and not out.startswith(('ERR', 'BLOCK')):
+        if entry not in ('read_nonblocking', 'waitnoecho') and not out.startswith(('ERR', 'BLOCK', 'HUNG')):
             if out == 'match':
                 consumed = len(child.before or b'') + len(child.after) + len(child.buffer)
             else:
                 consumed = len(child.before or b'')          # all pending text = everything read by this call
-        rec['obs'] = {'outcome': out, 'elapsed': int(round((w.clock.now - t0) / tick)), 'consumed': consumed,
+        rec['obs'] = {'outcome': out, 'elapsed': min(100000, int(round((w.clock.now - t0) / tick))), 'consumed': consumed,
                       'readable': readable, 'elapsed_raw': round(w.clock.now - t0, 4)}
     except Exception:
         rec['error'] = traceback.format_exc()
@@ -247,12 +267,15 @@ def wall_case(args):
             signal.setitimer(signal.ITIMER_REAL, 0.05, 0.05)
         t0 = _t.time()
         try:
-            child.expect_exact(b'm', timeout=T)
+            with wall_budget(T + 20):
+                child.expect_exact(b'm', timeout=T)
             res['outcome'] = 'match'
         except pexpect.TIMEOUT:
             res['outcome'] = 'TIMEOUT'
         except pexpect.EOF:
             res['outcome'] = 'EOF'
+        except Hung:
+            res['outcome'] = 'HUNG'
         finally:
             res['elapsed'] = round(_t.time() - t0, 3)
             if signals:
@@ -279,7 +302,7 @@ def wall_clock(ctx, pool):
     jobs.append(('tcp-urgent', False, 0.6, None))
     jobs.append(('tcp-urgent', False, 0.9, 0.3))
     jobs.append(('tcp-urgent', False, 0.7, None, True))
-    outs = pool.map(wall_case, jobs, chunksize=1)
+    outs = pmap(pool, wall_case, jobs, chunksize=1, timeout=600)
 
     def bad(o):
         if o.get('talk_at'):
@@ -303,7 +326,9 @@ def wall_clock(ctx, pool):
             if o['outcome'] != 'match' or o['elapsed'] > o['T']:
                 ctx.fail('C05:match-arrived-before-deadline-but-not-reported', case, detail=o, signature=sig)
         else:
-            if o['outcome'] != 'TIMEOUT':
+            if o['outcome'] == 'HUNG':
+                ctx.fail('C05:call-did-not-return', case, detail=o, signature=sig)
+            elif o['outcome'] != 'TIMEOUT':
                 ctx.fail('C05:other-exception', case, detail=o, signature=sig)
             elif o['elapsed'] < o['T'] - 0.02:
                 ctx.fail('C05:timeout-before-deadline', case, detail=o, signature=sig)
@@ -373,7 +398,7 @@ def run(ctx):
                     jobs.append((ctx.work, tid, tr, entry, targ, start, ev2, tid))
                     tid += 1
         t0 = time.time()
-        recs = pool.map(execute, jobs, chunksize=4)
+        recs = pmap(pool, execute, jobs, chunksize=4, timeout=1500 if quick else 7200)
         nwall = wall_clock(ctx, pool)
     nurg = sum(1 for j in jobs if j[2] == 'tcpfd')
     ctx.note('%d timed executions of %d entry points on %d transports (fd: pipe / FIFO / pty / socketpair / TCP descriptor x select / poll) in %.0fs; '
@@ -398,7 +423,7 @@ def run(ctx):
                 again.append((ctx.work, 1000000 + 2 * r['id'] + rep - 1, r['transport'], r['entry'], r['targ'], r['start'],
                               [tuple(e) for e in r['events']], r['k']))
         with Pool(14) as pool:
-            recs2 = pool.map(execute, again, chunksize=2)
+            recs2 = pmap(pool, execute, again, chunksize=2, timeout=1500)
         tr2 = [to_trace(r) for r in recs2 if 'obs' in r]
         cl2, _, _ = validate(ctx, tr2, tag='confirm') if tr2 else ({}, set(), {})
         for r in suspects[:400]:
